@@ -3,6 +3,7 @@ package exec
 import (
 	"fmt"
 	"go/types"
+	"math/bits"
 	"net/textproto"
 	"path"
 	"regexp"
@@ -63,6 +64,52 @@ func buildIntrinsics() map[string]Intrinsic {
 		return val(e.C.Ite(ci.Args[0].(*sym.Term), ci.Args[1].(*sym.Term), ci.Args[2].(*sym.Term)))
 	}
 	m[hp+"vIteB"] = m[hp+"vIte"]
+	m[hp+"vIteStr"] = func(e *Exec, st *State, ci *CallInfo) Outcome {
+		c := ci.Args[0].(*sym.Term)
+		a, b := sArg(ci, 1), sArg(ci, 2)
+		if c.IsTrue() {
+			return val(a)
+		}
+		if c.IsFalse() {
+			return val(b)
+		}
+		return val(e.IteStr(c, a, b))
+	}
+	m[hp+"vSubstr"] = func(e *Exec, st *State, ci *CallInfo) Outcome {
+		s := sArg(ci, 0)
+		lo, hi := ci.Args[1].(*sym.Term), ci.Args[2].(*sym.Term)
+		cc := e.C
+		ls := e.lenOf(s)
+		z := e.i64(0)
+		lo = cc.Ite(cc.Slt(lo, z), z, lo)
+		lo = cc.Ite(cc.Slt(ls, lo), ls, lo)
+		hi = cc.Ite(cc.Slt(hi, lo), lo, hi)
+		hi = cc.Ite(cc.Slt(ls, hi), ls, hi)
+		return val(e.StrSlice(s, lo, hi))
+	}
+	m[hp+"verifCoverIf"] = func(e *Exec, st *State, ci *CallInfo) Outcome {
+		label := mustConc(ci.Args[0], "cover label")
+		cond := ci.Args[1].(*sym.Term)
+		if cond.IsFalse() {
+			return val(nil)
+		}
+		if e.Res.Covers[label] > 0 {
+			return val(nil)
+		}
+		if v, ok := st.factOf(cond); ok && !v {
+			return val(nil)
+		}
+		e.S.Push()
+		e.S.Assert(cond)
+		if e.S.Check() == smt.Sat {
+			if m, err := e.S.Model(); err == nil {
+				e.Res.Covers[label]++
+				e.Res.CoverInputs[label] = e.InputsUnder(st, sym.NewEvaluator(m))
+			}
+		}
+		e.S.Pop()
+		return val(nil)
+	}
 	registerStrings(m)
 	registerRegexp(m)
 	registerStubs(m)
@@ -101,10 +148,7 @@ func inNondetString(e *Exec, st *State, ci *CallInfo) Outcome {
 	}
 	s, cons := e.NewSymStr(name, cap)
 	for _, c := range cons {
-		if !e.assume(st, c) {
-			e.endPath(st, EndInfeasible)
-			return handled
-		}
+		e.assumeTrusted(st, c)
 	}
 	e.addInput(st, name, "string", s)
 	return val(s)
@@ -133,10 +177,11 @@ func inNondetInt(e *Exec, st *State, ci *CallInfo) Outcome {
 	}
 	v := e.C.Var(name, 64)
 	e.addInput(st, name, "int", v)
-	if !e.assume(st, e.C.And(e.C.Sle(e.i64(lo), v), e.C.Sle(v, e.i64(hi)))) {
+	if lo > hi {
 		e.endPath(st, EndInfeasible)
 		return handled
 	}
+	e.assumeTrusted(st, e.C.And(e.C.Sle(e.i64(lo), v), e.C.Sle(v, e.i64(hi))))
 	return val(v)
 }
 
@@ -214,12 +259,18 @@ func inAssert(e *Exec, st *State, ci *CallInfo) Outcome {
 	for _, k := range st.Known {
 		notKnown = append(notKnown, c.Not(k.Cond))
 	}
+	e.S.Tag = "assert " + msg
 	e.S.Push()
 	e.S.Assert(neg)
 	for _, nk := range notKnown {
 		e.S.Assert(nk)
 	}
 	res := e.S.Check()
+	if res == smt.Unsat && len(r.Scripts) < r.ScriptLimit && (r.Obligations+e.Seed)%3 == 0 {
+		terms := append(append([]*sym.Term{}, st.PC...), neg)
+		terms = append(terms, notKnown...)
+		r.Scripts = append(r.Scripts, ObligationScript{Msg: msg, Expect: "unsat", SMT: sym.Script(terms)})
+	}
 	ok := true
 	switch res {
 	case smt.Sat:
@@ -441,7 +492,7 @@ func registerStrings(m map[string]Intrinsic) {
 		}
 		has := e.HasPrefix(s, p)
 		lp := e.lenOf(p)
-		return Outcome{Kind: OutAlts, Alts: []AltOut{
+		return Outcome{Kind: OutAlts, Exhaustive: true, Alts: []AltOut{
 			{Cond: has, Val: e.StrSlice(s, lp, e.lenOf(s))},
 			{Cond: e.C.Not(has), Val: s},
 		}}
@@ -452,7 +503,7 @@ func registerStrings(m map[string]Intrinsic) {
 			return val(e.ConcStr(strings.TrimSuffix(s.Conc, p.Conc)))
 		}
 		has := e.HasSuffix(s, p)
-		return Outcome{Kind: OutAlts, Alts: []AltOut{
+		return Outcome{Kind: OutAlts, Exhaustive: true, Alts: []AltOut{
 			{Cond: has, Val: e.StrSlice(s, e.i64(0), e.C.Sub(e.lenOf(s), e.lenOf(p)))},
 			{Cond: e.C.Not(has), Val: s},
 		}}
@@ -578,6 +629,22 @@ func registerStrings(m map[string]Intrinsic) {
 		}
 		return val(e.opaqueStr(st, "itoa", 4))
 	}
+	bitsFn := func(f func(uint64) int) Intrinsic {
+		return func(e *Exec, st *State, ci *CallInfo) Outcome {
+			t := ci.Args[0].(*sym.Term)
+			v, ok := t.ConstVal()
+			if !ok {
+				unsupportedf("math/bits function on symbolic value")
+			}
+			return val(e.i64(f(v)))
+		}
+	}
+	m["math/bits.Len"] = bitsFn(func(v uint64) int { return bits.Len64(v) })
+	m["math/bits.Len64"] = bitsFn(func(v uint64) int { return bits.Len64(v) })
+	m["math/bits.Len32"] = bitsFn(func(v uint64) int { return bits.Len32(uint32(v)) })
+	m["math/bits.TrailingZeros"] = bitsFn(func(v uint64) int { return bits.TrailingZeros64(v) })
+	m["math/bits.TrailingZeros64"] = bitsFn(func(v uint64) int { return bits.TrailingZeros64(v) })
+	m["math/bits.LeadingZeros64"] = bitsFn(func(v uint64) int { return bits.LeadingZeros64(v) })
 	m["strconv.ParseFloat"] = inParseFloat
 	m["fmt.Sprintf"] = inSprintf
 	m["fmt.Sprint"] = func(e *Exec, st *State, ci *CallInfo) Outcome {
@@ -591,9 +658,9 @@ func registerStrings(m map[string]Intrinsic) {
 
 func (e *Exec) opaqueStr(st *State, prefix string, cap int) *Str {
 	e.fresh++
-	s, cons := e.NewSymStr(fmt.Sprintf("%s!%d", prefix, len(st.PC)*1000+e.fresh%1000), cap)
+	s, cons := e.NewSymStr(fmt.Sprintf("%s!%d", prefix, e.fresh), cap)
 	for _, c := range cons {
-		e.assume(st, c)
+		e.assumeTrusted(st, c)
 	}
 	return s
 }
@@ -630,11 +697,7 @@ func (e *Exec) split(st *State, s, sep *Str, limit int) Outcome {
 		maxN = limit - 1
 	}
 	// find the largest feasible count first (cheap pruning of the alternatives)
-	lo := int(st.ev.Eval(count))
-	if lo > maxN {
-		lo = maxN
-	}
-	ub := lo
+	ub := 0
 	for ub < maxN {
 		if e.S.CheckWith(c.Sgt(count, e.i64(ub))) == smt.Unsat {
 			break
@@ -741,7 +804,7 @@ func inParseFloat(e *Exec, st *State, ci *CallInfo) Outcome {
 		e.Res.Notes["unmodelled: ParseFloat argument outside the summarised language"]++
 		return false
 	}})
-	return Outcome{Kind: OutAlts, Alts: alts}
+	return Outcome{Kind: OutAlts, Exhaustive: true, Alts: alts}
 }
 
 // errorValue builds an error interface value (*errors.errorString).
